@@ -35,6 +35,7 @@ def script_for(sc, kind, comp):
     nid = 1
     for o in sc["ops"]:
         if o[0] == "rot": nid += 1; ls.append("W rot %d" % nid)
+        elif o[0] == "rots": ls.append("W rot %d" % nid)          # onto the very name that is being produced
         elif o[1] == "rep": ls.append("W writerep %02x %d" % (o[2], o[3]))
         else: ls.append("W write %s" % (o[2].hex() or "-"))
     if sc["destroy"]: ls.append("W end")
@@ -44,11 +45,24 @@ def script_for(sc, kind, comp):
 def expected_outputs(sc):
     outs, cur = [], b""
     for o in sc["ops"]:
+        if o[0] == "rots": raise ValueError("same-name rotations are named by expected_by_name")
         if o[0] == "rot": outs.append(cur); cur = b""
         elif o[1] == "rep": cur += bytes([o[2]]) * o[3]
         else: cur += o[2]
     if sc["destroy"]: outs.append(cur)
     return outs
+
+def expected_by_name(sc, ext):
+    """complete outputs per final name (a name may be produced several times: any of them may be found there)"""
+    res, cur, nid = {}, b"", 1
+    for o in sc["ops"]:
+        if o[0] in ("rot", "rots"):
+            res.setdefault("out%d%s" % (nid, ext), []).append(cur); cur = b""
+            if o[0] == "rot": nid += 1
+        elif o[1] == "rep": cur += bytes([o[2]]) * o[3]
+        else: cur += o[2]
+    if sc["destroy"]: res.setdefault("out%d%s" % (nid, ext), []).append(cur)
+    return res
 
 def decompress_strict(comp, data):
     """exactly one complete stream, nothing after it"""
